@@ -767,8 +767,10 @@ class Response(_SansIOResponse):
             # wsgiref.
             if "date" not in self.headers:
                 self.headers["Date"] = http_date()
-            is206 = self._process_range_request(environ, complete_length, accept_ranges)
-            if not is206 and not is_resource_modified(
+            # https://tools.ietf.org/html/rfc7233#section-3.1
+            # The Range header is evaluated after the preconditions and
+            # ignored when the conditional request results in 304 or 412.
+            if not is_resource_modified(
                 environ,
                 self.headers.get("etag"),
                 None,
@@ -778,6 +780,8 @@ class Response(_SansIOResponse):
                     self.status_code = 412
                 else:
                     self.status_code = 304
+            else:
+                self._process_range_request(environ, complete_length, accept_ranges)
             if (
                 self.automatically_set_content_length
                 and "content-length" not in self.headers
